@@ -35,7 +35,7 @@ MAX_REMAPS = {1: 2, 2: 1}
 
 def remap_ip(sid, n):
     return REMAP_IP[sid] if n <= 1 else REMAP_IP2[sid]
-SOURCE = {1: ('127.0.0.1', 40001), 2: ('127.0.0.1', 40002)}
+SOURCE = {1: ('127.0.0.1', 40001), 2: ('::1', 40002)}        # stream 2 comes in through an IPv6 SOCKS listener
 
 
 def initial():
@@ -117,7 +117,7 @@ def enabled(state, maxhops=3):
                 out.append(('C%d-CLOSED-unbuilt' % c, 'CIRC', circ_line(c, 'CLOSED', cur.hops, 'REASON=FINISHED'), (n, ns)))
     for s in SIDS:
         cur = strms.get(s)
-        src = 'SOURCE_ADDR=%s:%d PURPOSE=USER' % SOURCE[s]
+        src = 'SOURCE_ADDR=%s:%d PURPOSE=USER' % (('[%s]' % SOURCE[s][0]) if ':' in SOURCE[s][0] else SOURCE[s][0], SOURCE[s][1])
         if cur is None:
             n = dict(strms)
             n[s] = Strm('NEW', 0, 0)
